@@ -227,6 +227,8 @@ impl StartedSubmission {
             .write(&state_file_path, &temp_file_path)
             .await
             .wrap_err("failed commiting submission started state to disk")?;
+        #[cfg(all(test, feature = "verif"))]
+        super::write::verif_state_file_written(&state.to_string());
         Ok(Self {
             last_submission,
             state_file_path,
@@ -307,6 +309,8 @@ impl PreparedSubmission {
             .write(&state_file_path, &temp_file_path)
             .await
             .wrap_err("failed commiting submission prepared state to disk")?;
+        #[cfg(all(test, feature = "verif"))]
+        super::write::verif_state_file_written(&state.to_string());
         Ok(Self {
             sequencer_height,
             last_submission,
@@ -410,6 +414,8 @@ impl SubmissionStateAtStartup {
                     state_file_path.0.display()
                 )
             })?;
+        #[cfg(all(test, feature = "verif"))]
+        super::write::verif_state_file_written(&state.to_string());
 
         match state {
             State::Fresh => Ok(Self::Fresh(FreshSubmission {
